@@ -29,6 +29,62 @@ Qed.
 Theorem code_has_zero_byte_never_panics x : exists r, rs_swar_has_zero_byte x = Ok r.
 Proof. rewrite tie_has_zero_byte. eexists; reflexivity. Qed.
 
+(* ---- the searchers One / Two / Three of the portable code: constructor, has_needle, confirm ---- *)
+From Memchr Require Import Mem.Bytewise Mem.Swar.
+
+Definition one_ok (f : One) := One_v1 f = splat 8 (One_s1 f).
+Definition two_ok (f : Two) := Two_v1 f = splat 8 (Two_s1 f) /\ Two_v2 f = splat 8 (Two_s2 f).
+Definition three_ok (f : Three) :=
+  Three_v1 f = splat 8 (Three_s1 f) /\ Three_v2 f = splat 8 (Three_s2 f) /\ Three_v3 f = splat 8 (Three_s3 f).
+
+Theorem tie_one_new b : b < 256 -> exists f, rs_One_new b = Ok f /\ One_s1 f = b /\ one_ok f.
+Proof. intros H. unfold rs_One_new. rewrite (tie_splat b H). eexists; repeat split. Qed.
+Theorem tie_two_new a b : a < 256 -> b < 256 ->
+  exists f, rs_Two_new a b = Ok f /\ Two_s1 f = a /\ Two_s2 f = b /\ two_ok f.
+Proof. intros Ha Hb. unfold rs_Two_new. rewrite (tie_splat a Ha), (tie_splat b Hb). eexists; repeat split. Qed.
+Theorem tie_three_new a b c : a < 256 -> b < 256 -> c < 256 ->
+  exists f, rs_Three_new a b c = Ok f /\ Three_s1 f = a /\ Three_s2 f = b /\ Three_s3 f = c /\ three_ok f.
+Proof.
+  intros Ha Hb Hc. unfold rs_Three_new. rewrite (tie_splat a Ha), (tie_splat b Hb), (tie_splat c Hc).
+  eexists; repeat split.
+Qed.
+
+Theorem tie_one_has_needle f chunk : one_ok f ->
+  rs_One_has_needle f (le_word chunk) = Ok (has_needle 8 [One_s1 f] chunk).
+Proof.
+  intros H. unfold rs_One_has_needle, has_needle. rewrite tie_has_zero_byte, H. cbn [existsb]. rewrite orb_false_r. reflexivity.
+Qed.
+Theorem tie_two_has_needle f chunk : two_ok f ->
+  rs_Two_has_needle f (le_word chunk) = Ok (has_needle 8 [Two_s1 f; Two_s2 f] chunk).
+Proof.
+  intros [H1 H2]. unfold rs_Two_has_needle, has_needle. rewrite !tie_has_zero_byte, H1, H2. cbn [rbind existsb].
+  rewrite orb_false_r. destruct (has_zero_byte 8 _); reflexivity.
+Qed.
+Theorem tie_three_has_needle f chunk : three_ok f ->
+  rs_Three_has_needle f (le_word chunk) = Ok (has_needle 8 [Three_s1 f; Three_s2 f; Three_s3 f] chunk).
+Proof.
+  intros (H1 & H2 & H3). unfold rs_Three_has_needle, has_needle. rewrite !tie_has_zero_byte, H1, H2, H3. cbn [rbind existsb].
+  rewrite orb_false_r.
+  destruct (has_zero_byte 8 (N.lxor (splat 8 (Three_s1 f)) (le_word chunk))); cbn [rbind orb]; [reflexivity|].
+  destruct (has_zero_byte 8 (N.lxor (splat 8 (Three_s2 f)) (le_word chunk))); reflexivity.
+Qed.
+
+Theorem tie_one_confirm f b : rs_One_confirm f b = Ok (confirm [One_s1 f] b).
+Proof. unfold rs_One_confirm, confirm. cbn [existsb]. rewrite orb_false_r. reflexivity. Qed.
+Theorem tie_two_confirm f b : rs_Two_confirm f b = Ok (confirm [Two_s1 f; Two_s2 f] b).
+Proof. unfold rs_Two_confirm, confirm. cbn [existsb]. rewrite orb_false_r. reflexivity. Qed.
+Theorem tie_three_confirm f b : rs_Three_confirm f b = Ok (confirm [Three_s1 f; Three_s2 f; Three_s3 f] b).
+Proof. unfold rs_Three_confirm, confirm. cbn [existsb]. rewrite orb_false_r, orb_assoc. reflexivity. Qed.
+
 Print Assumptions tie_splat.
 Print Assumptions tie_has_zero_byte.
 Print Assumptions code_has_zero_byte_never_panics.
+Print Assumptions tie_one_new.
+Print Assumptions tie_two_new.
+Print Assumptions tie_three_new.
+Print Assumptions tie_one_has_needle.
+Print Assumptions tie_two_has_needle.
+Print Assumptions tie_three_has_needle.
+Print Assumptions tie_one_confirm.
+Print Assumptions tie_two_confirm.
+Print Assumptions tie_three_confirm.
